@@ -1,52 +1,60 @@
 #!/usr/bin/env python3
-"""runmut.py [--suite] PATCH PROP [PROP...]
+"""runmut.py [--suite] [--tier T] PATCH PROP [PROP...]
 
-Applies PATCH (path, or name under /verif/mutants or /verif/seeded/<id>/patch.diff) to /repo,
-runs ./check PROP (quick) for each PROP, always reverts.  With --suite also runs the
-repository test suite in a scratch worktree under /dev/shm with the patch applied."""
+Runs checks against a patched copy of the repository WITHOUT touching /repo:
+makes a scratch git worktree of /repo HEAD under /dev/shm, applies PATCH (a path,
+or a name under /verif/mutants, or /verif/seeded/<id>/patch.diff), optionally runs
+the repository test suite there (--suite), then runs ./check PROP for each PROP with
+VZ_SRC pointing at the worktree and VZ_OUT at a scratch directory (so /verif/evidence
+is not overwritten), and removes the worktree.  Safe to run concurrently."""
 import subprocess, sys, os, shutil, time
 args = sys.argv[1:]
 suite = False
-if args[0] == "--suite":
-    suite = True
-    args = args[1:]
+tier = os.environ.get("VERIF_TIER", "quick")
+while args and args[0].startswith("--"):
+    if args[0] == "--suite":
+        suite = True
+        args = args[1:]
+    elif args[0] == "--tier":
+        tier = args[1]
+        args = args[2:]
+    else:
+        raise SystemExit("unknown option " + args[0])
 patch, props = args[0], args[1:]
 cands = [patch, "/verif/mutants/%s.diff" % patch, "/verif/mutants/%s" % patch,
          "/verif/seeded/%s/patch.diff" % patch]
 patch = next(p for p in cands if os.path.isfile(p))
-tier = os.environ.get("VERIF_TIER", "quick")
+label = patch.split('/')[-2] if patch.endswith('patch.diff') else os.path.basename(patch)
 def sh(*a, **k):
     return subprocess.run(a, capture_output=True, text=True, stdin=subprocess.DEVNULL, **k)
-assert sh("git", "-C", "/repo", "status", "--porcelain", "--untracked-files=no").stdout.strip() == "", "repo dirty"
-if suite:
-    wt = "/dev/shm/mutwt-%d" % os.getpid()
-    sh("git", "-C", "/repo", "worktree", "add", "--detach", wt, "HEAD")
-    try:
-        r = sh("git", "-C", wt, "apply", patch)
-        assert r.returncode == 0, r.stderr
+wt = "/dev/shm/mutwt-%d" % os.getpid()
+r = sh("git", "-C", "/repo", "worktree", "add", "--detach", wt, "HEAD")
+assert r.returncode == 0, r.stderr
+rc_all = 0
+try:
+    r = sh("git", "-C", wt, "apply", patch)
+    assert r.returncode == 0, r.stderr
+    if suite:
         env = dict(os.environ, PYTHONPATH=wt + "/src")
         r = sh("/venv/bin/python", "-m", "pytest", "-q", "-p", "no:cacheprovider", "--timeout=900",
                cwd=wt, env=env)
         tail = r.stdout.strip().splitlines()[-1] if r.stdout.strip() else r.stderr[-200:]
         failed = [l.split()[1] for l in r.stdout.splitlines() if l.startswith(("FAILED", "ERROR"))]
-        failed = [f for f in failed if not f.endswith("test_validator.py::TestValidator::test_schema_only")]
-        tail = ("SUITE-PASSES (only the baseline always-fail test fails) " if not failed else "SUITE-FAILS %s " % failed[:4]) + tail
-        print("SUITE[%s]: rc=%d %s" % (os.path.basename(os.path.dirname(patch)) if patch.endswith('patch.diff') else os.path.basename(patch), r.returncode, tail))
-    finally:
-        sh("git", "-C", "/repo", "worktree", "remove", "--force", wt)
-        shutil.rmtree(wt, ignore_errors=True)
-r = sh("git", "-C", "/repo", "apply", patch)
-assert r.returncode == 0, r.stderr
-try:
+        tail = ("SUITE-PASSES " if not failed and r.returncode == 0 else "SUITE-FAILS %s " % failed[:4]) + tail
+        print("SUITE[%s]: rc=%d %s" % (label, r.returncode, tail))
+    env = dict(os.environ, VZ_SRC=wt + "/src", VZ_OUT=wt + "/_out")
+    env.pop("PYTHONPATH", None)
     for p in props:
         t = time.time()
-        r = sh("/verif/check", p, "--tier", tier, cwd="/verif")
+        r = sh("/verif/check", p, "--tier", tier, cwd="/verif", env=env)
         lines = r.stdout.strip().splitlines()
         v = [l for l in lines if l.startswith("VIOLATION")]
-        print("CHECK %s on %s: rc=%d violations=%d (%.0fs)" % (p, os.path.basename(patch) if not patch.endswith('patch.diff') else patch.split('/')[-2], r.returncode, len(v), time.time() - t))
+        print("CHECK %s on %s: rc=%d violations=%d (%.0fs)" % (p, label, r.returncode, len(v), time.time() - t))
         for l in lines[:6]:
             print("   ", l[:300])
         if r.returncode not in (0, 1):
             print(r.stdout[-1500:], r.stderr[-1500:])
 finally:
-    subprocess.run(["git", "-C", "/repo", "checkout", "--", "."], check=True)
+    sh("git", "-C", "/repo", "worktree", "remove", "--force", wt)
+    shutil.rmtree(wt, ignore_errors=True)
+    sh("git", "-C", "/repo", "worktree", "prune")
